@@ -133,7 +133,7 @@ class MediaList(cssutils.util._NewListBase):
             for item in seq:
                 # filter for doubles?
                 if item.type == 'MediaQuery':
-                    mediaType = item.value.mediaType
+                    mediaType = normalize(item.value.mediaType)
                     if mediaType:
                         if mediaType == 'all':
                             # remove anthing else and keep all+comments(!) only
@@ -247,8 +247,8 @@ class MediaList(cssutils.util._NewListBase):
         self._checkReadonly()
         oldMedium = normalize(oldMedium)
 
-        for i, mq in enumerate(self):
-            if normalize(mq.value.mediaType) == oldMedium:
+        for i, mq in enumerate(self._seq):
+            if mq.type == 'MediaQuery' and normalize(mq.value.mediaType) == oldMedium:
                 del self[i]
                 break
         else:
@@ -262,7 +262,7 @@ class MediaList(cssutils.util._NewListBase):
         list, returns ``None``.
         """
         try:
-            return self[index].mediaType
+            return list(self)[index].value.mediaType
         except IndexError:
             return None
 
